@@ -117,10 +117,6 @@ static unsigned ref_parse_tags(const unsigned char *d, struct ref_tag *tags)
 	return n;
 }
 
-#ifdef REF_CSUM_HOOKS
-static int ref_hdr_csum_ok(unsigned pos, const unsigned char *d);	/* descriptor / revoke tail */
-static int ref_commit_csum_ok(unsigned pos, const unsigned char *d);
-#endif
 
 /* find the end of the log */
 static void ref_walk(__u32 s_sequence)
@@ -236,15 +232,11 @@ static int ref_revoked_by_table(unsigned long long blk, unsigned ord)
 #define REF_REVOKED(blk, ord) ref_revoked_by_table(blk, ord)
 #endif
 
-#ifdef REF_CSUM_HOOKS
-static int ref_data_csum_ok(unsigned dpos, const unsigned char *tagbytes);
-#endif
-static int ref_data_csum_failed;
 
 /* apply the committed transactions in log order */
 static void ref_replay(void)
 {
-	unsigned n, t, p, i, o;
+	unsigned n, t, p, i;
 	static unsigned char d[B], data[B];
 	static struct ref_tag tags[REF_MAXT + 1];
 
@@ -270,5 +262,4 @@ static void ref_replay(void)
 						ref_fs[p * B + i] = data[i];
 		}
 	}
-	(void) o;
 }
